@@ -259,7 +259,7 @@ Definition v_true := v_bool true.
 Definition v_false := v_bool false.
 Definition v_num (n : bf) : value := V TNum (PNum n IdFresh).
 Definition v_int (z : Z) : value := v_num (bf_of_int z).
-Definition v_zero : value := V TNum (PNum bf_zero64 IdZero).
+Definition v_zero : value := V TNum (PNum bf_zero53 IdZero).
 Definition v_pinf : value := V TNum (PNum bf_pinf0 IdPInf).
 Definition v_ninf : value := V TNum (PNum bf_ninf0 IdNInf).
 Definition v_str (s : str) : value := V TStr (PStr s).       (* s already normalised *)
